@@ -90,6 +90,7 @@ def cases(draw, tier="quick"):
         P["w_s2c"] = [1 if slow == 0 else 10, 1 if slow == 1 else 10]      # a slow reader: its inbound queue builds up
         P["w_adv"] = draw(st.sampled_from([2, 6]))
     n = draw(st.integers(0, 240))
+    P["closing_drops"] = draw(st.booleans())   # graceful server closes pass through the WebSocket CLOSING state
     P["tape"] = draw(st.binary(min_size=n, max_size=n))
     return P
 
@@ -124,6 +125,7 @@ def latecode_cases(draw, tier="quick"):
     else:
         P["welcome_error"] = "go away"
     P["drops"] = draw(st.sampled_from([0, 1, 3]))
+    P["closing_drops"] = draw(st.booleans())
     P["w_drop"] = 3
     P["closes"] = []
     return P
